@@ -316,6 +316,15 @@ def f(a, b, x, s, flag, xs, tp, n):
         v0 = g1(1)
     return (v3,)
 ''', 'mode': 'hostile'}),
+ ('C01', 'chained-comparison-middle-operand-evaluated-twice', 'f91d406',
+  "a < f() < c was rewritten to and_(lambda: a < f(), lambda: f() < c): the operand shared by two comparisons was evaluated twice (side effects doubled)",
+  c01('''def f(a, b, c, xs, o, d):
+    v0 = 0
+    if a < T('m', b) <= c + 2:
+        v0 = 1
+    v1 = a < T('n', b) < T('k', c) != 7
+    return (v0, v1)
+''', [A, B])),
 ]
 
 OPEN = [
